@@ -81,7 +81,22 @@ def run(ctx):
             bits = "p1['first'].generators.bp_gens.gens_capacity"
             idiom = a[1] == 'Le' and a[3] == '0' and ' Shr ' in a[2]
             if not idiom:
-                rep.idiom_absent('R-C07-4', 'R-C07-4/range-guard/constants', 'promise guard is not of the form `bits < K && (p >> s) > 0`: %s (constants not decided)' % (a,))
+                from .common import bound_verdict
+                from bpsa.terms import T as _T
+                c0 = r['guard'].cond
+                while c0.tag == 'unop' and c0[1] == 'Not':
+                    c0 = c0[2]
+                verdict, why = None, 'not a comparison'
+                if c0.tag == 'binop' and a[0] == 'cmp' and a[1] in ('Le', 'Lt') and r.get('spliced'):
+                    x, y = (c0[2], c0[3]) if canon(c0[2]) == a[2] else (c0[3], c0[2])
+                    verdict, why = bound_verdict(ctx.eng, _T('binop', a[1], x, y), True,
+                                                 lambda t: 'minimum_value_promises' in canon(t) and 'Shl' not in canon(t) and 'shl' not in canon(t),
+                                                 lambda t: canon(t).endswith('generators.bp_gens.gens_capacity'))
+                if verdict is None:
+                    rep.idiom_absent('R-C07-4', 'R-C07-4/range-guard/constants', 'promise guard is neither `bits < K && (p >> s) > 0` nor a comparison with 2^bits + k (%s): %s (constants not decided)' % (why, a,))
+                else:
+                    rep.check(verdict, 'R-C07-4', 'R-C07-4/range-guard/constants', 'promise guard compares the promise with a bound computed from the bit length: ' + why,
+                              'promise guard: ' + why, ctx.where(cons, r['guard'].bb))
             else:
                 s = a[2][a[2].rindex(' Shr ') + 5:-1]
                 ks = [x for x in r['ctx'] if x[0] == 'cmp' and x[1] == 'Le' and x[3].isdigit()]
